@@ -288,10 +288,11 @@ class DiagService(DiagComm):
                 pass
 
         if len(result_list) < 1:
-            odxraise(f"The service {self.short_name} cannot decode the message {raw_message.hex()}",
-                     DecodeError)
-            return Message(
-                coded_message=raw_message, service=self, coding_object=None, param_dict={})
+            # this is raised regardless of the strict mode because
+            # DiagLayer.decode() relies on it to skip the services
+            # which cannot decode the message
+            raise DecodeError(
+                f"The service {self.short_name} cannot decode the message {raw_message.hex()}")
         elif len(result_list) > 1:
             odxraise(
                 f"The service {self.short_name} cannot uniquely decode the message {raw_message.hex()}",
